@@ -27,9 +27,6 @@ type c19Req struct {
 type c19Case struct {
 	Restart bool     `json:"restart"` // close + reopen the engine after the sequence and compare the tree again
 	Reqs    []c19Req `json:"reqs"`
-	// NoSettle (hand-written replays only): do not wait for the untracked
-	// turbo-refine pass that POST /vector/actions/import/commit starts.
-	NoSettle bool `json:"no_settle,omitempty"`
 
 	excluded []string // known-finding exclusions that fired while generating (not part of the case data)
 }
@@ -778,7 +775,7 @@ func c19GenCase() *rapid.Generator[c19Case] {
 			}
 			c.Reqs = append(c.Reqs, mk("POST", g.oneOf("cr", "/vector/indexes", "/vector/actions/create"), g.chance("cm", 1, 4)))
 			if name != orig && g.chance("keeporig", 1, 2) {
-				name = orig // the create was neutralised (known finding); the other routes still see the original name
+				name = orig // only when a known-finding hook neutralised the create: the other routes still see the original name
 			}
 			if g.chance("add", 5, 6) {
 				if g.chance("single", 2, 3) {
